@@ -23,12 +23,12 @@ WORKERS = int(os.environ.get("C07_WORKERS", "6"))
 
 IMPL_INVS = ["ImplExact", "ImplBitExact", "ImplTables", "ImplImposesFull", "ImplFixesFull", "ImplKeepsPeriodic",
              "ImplIdempotent", "ImplImposesCompact", "ImplFixesCompact", "ImplCompactEqFull", "ImplExpandIsDefinition",
-             "ImplImposesSG", "ImplFixesSG", "ImplSGKeeps", "ImplTransposeIsTranspose", "ImplTransposeInvolution",
+             "ImplImposesSG", "ImplFixesSG", "ImplSGKeeps", "ImplSGKeepsPermSym", "ImplSGApiEqDirect", "ImplTransposeIsTranspose", "ImplTransposeInvolution",
              "ImplDriftUnchanged", "ImplDriftDisplayed", "ImplCompactFullCompact", "ImplToCompactIsDefinition", "ImplFullCompactFull"]
 CONF_INVS = ["ConformsOut", "ConformsFullSym", "ConformsDriftDisplayed"]
 SELF_INVS = ["InvValidSystem", "InvValidOps", "InvArithExact", "InvAnnounced"]
 MODEL_INVS = ["InvImposesFull", "InvFixesFull", "InvKeepsPeriodic", "InvImposesCompact", "InvFixesCompact",
-              "InvImposesSG", "InvFixesSG", "InvSGKeeps", "InvIdempotent", "InvCompactEqFull", "InvPyEqC",
+              "InvImposesSG", "InvFixesSG", "InvSGKeeps", "InvSGKeepsPermSym", "InvIdempotent", "InvCompactEqFull", "InvPyEqC",
               "InvTransposeIsTranspose", "InvTransposeInvolution", "InvDriftUnchanged", "InvDriftDisplayed", "InvExpandIsDefinition",
               "InvCompactFullCompact", "InvToCompactIsDefinition", "InvFullCompactFull"]
 INFO_INVS = ["InfoIsOrthogonalProjector"]
@@ -71,12 +71,27 @@ def gen_events(ctx, rs, nprng, scale):
     def add(route, level, x, **fl):
         cases.append(dict(route=route, level=level, x=np.asarray(x, dtype=np.int64), **fl))
 
+    # space-group inputs are arrays in covariant lattice components (integers): arbitrary, space-group
+    # invariant (group mean of an arbitrary one), permutation/translation symmetric only, and obeying everything
+    # (like a spring model)
     def unit(shape, pos, val=1):
         a = np.zeros(shape, dtype=np.int64)
         a.ravel()[pos] = val
         return a
 
     cshape, fshape = (npp, ns, 3, 3), (ns, ns, 3, 3)
+    if rs.ops is not None:  # space-group systems: only the space-group route (the others do not see the lattice)
+        fd = [nprng.integers(-2, 3, size=fshape) for _ in range(2 if quick else 4)]
+        fb = [unit(fshape, p) for p in sorted(nprng.choice(int(np.prod(fshape)), size=2 if quick else 6, replace=False))]
+        for x in fd + fb:
+            add("sg", 1, x)
+        for x in fd:
+            add("sg", 1, rs.sg_mean(x), sym=True)
+            add("sg", 1, rs.proj_def(x))
+            add("sg", 1, rs.sg_mean(rs.proj_def(x)), sym=True)
+        if rs.orc is not None:  # the exact spring-model force constants of the catalogue crystal
+            add("sg", 1, rs.spring_fc(), sym=True, spring=True)
+        return cases
     nbc = min(int(np.prod(cshape)), int((12 if quick else 72) * scale))
     nbf = min(int(np.prod(fshape)), int((8 if quick else 48) * scale))
     cb = [unit(cshape, p) for p in sorted(nprng.choice(int(np.prod(cshape)), size=nbc, replace=False))]
@@ -120,12 +135,6 @@ def gen_events(ctx, rs, nprng, scale):
         for lv in levels:
             add("full", lv, s, sym=True)
         add("py", levels[-1], s, sym=True)
-    if rs.ops is not None:
-        for x in fd[:2] + fb[:2]:
-            add("sg", 1, x)
-        for x in fd[:2]:
-            add("sg", 1, rs.sg_mean(x), sym=True)
-            add("sg", 1, rs.proj_def(x))
     return cases
 
 
@@ -141,7 +150,8 @@ def record(ctx):
         scale = 1.0 if rs.ns <= 4 else 0.4
         for k, c in enumerate(gen_events(ctx, rs, nprng, scale)):
             ev = dict(id=len(events), sys=rs.name, route=c["route"], level=c["level"], x=lit(c["x"]),
-                      sym=bool(c.get("sym", False)), periodic=bool(c.get("periodic", False)))
+                      sym=bool(c.get("sym", False)), periodic=bool(c.get("periodic", False)),
+                      spring=bool(c.get("spring", False)))
             try:
                 obs, resid = R.execute(rs, c["route"], c["level"], c["x"],
                                          via_api=(k % 2 == 0 and not (c["route"] == "compact" and rs.np_ == rs.ns)))
